@@ -67,7 +67,7 @@ def available(first, names):
 
 
 def gen_plot(rng, first, subj=None, style="?", xoffset=None):
-    return dict(op="plot", subj=subj or rng.choice(available(first, SAMPLED)),
+    return dict(op="plot", subj=subj or rng.choice(available(first, SAMPLED) + ["derived"]),
                 style=rng.choice(STYLES) if style == "?" else style,
                 xoffset=(0.0 if rng.random() < 0.2 else rng.choice(OFFSETS)) if xoffset is None else xoffset,
                 zero=rng.random() < 0.3, scale_dz=rng.random() < 0.25, ax=rng.choice(["none", "none", "new", "shared"]),
@@ -112,9 +112,9 @@ def gen_op(rng, first, cfgkind):
     if kind == "from_corrfuncs":
         return dict(op=kind, how=rng.choice(["cross", "cross+ref", "corrdata", "auto-as-cross"]))
     if kind == "modify":
-        hows = ["nothing", "closed", "edges", "generated", "use-hist"]
+        hows = ["nothing", "closed", "edges", "generated", "use-hist", "use-hist"]
         if cfgkind != "binning":
-            hows += ["rmin", "max_workers", "inner"]
+            hows += ["rmin", "max_workers", "inner", "use-auto", "use-auto"]
         return dict(op=kind, how=rng.choice(hows))
     return dict(op="arith", subj=rng.choice(available(first, ["hist", "cd_auto", "cd_cross", "rd", "cf_auto", "cf_cross", "hist_norm"])),
                 how=rng.choice(["add", "sub", "mul"]))
@@ -222,6 +222,12 @@ def look_probe_specs(rng):
         [dict(op="modify", how=h) for h in ["nothing", "closed", "edges", "generated", "use-hist", "rmin", "max_workers", "inner"]] +
         [dict(op="arith", subj=s, how=h) for s, h in zip(["hist", "cd_auto", "cf_cross", "rd"], ["add", "sub", "mul", "add"])],
         [dict(op="plot_corr", subj=s, redshift=r, ax=a) for s, r, a in zip(SAMPLED, [False, True, False, True, True], ["none", "new", "shared", "none", "new"])],
+        [dict(op="modify", how="use-hist"), dict(op="plot", subj="derived", style="step", xoffset=0.0625, zero=False, scale_dz=False, ax="none",
+                                                 color=None, label=None, kwargs=False),
+         dict(op="modify", how="use-auto"), dict(op="plot", subj="derived", style="step", xoffset=-0.03125, zero=True, scale_dz=False, ax="new",
+                                                 color=None, label=None, kwargs=False),
+         dict(op="to_dict", subj="cfg", back=True), dict(op="copy", subj="cd_auto", how="copy"),
+         dict(op="plot", subj="derived", style="step", xoffset=0.125, zero=False, scale_dz=True, ax="shared", color="k", label="x", kwargs=True)],
         [],
     ]
     for n, ops in enumerate(others):
@@ -233,7 +239,7 @@ def look_probe_specs(rng):
 def look_specs(ctx):
     rng = ctx.rng
     out = look_probe_specs(rng)
-    out += [random_look_spec(rng) for _ in range(ctx.n(90, 1200))]
+    out += [random_look_spec(rng) for _ in range(ctx.n(70, 1200))]
     return out
 
 
@@ -407,6 +413,8 @@ def flip(closed):
 def op_plot(env, o):
     from yaw.redshifts import HistData
     subj = env.get(o["subj"])
+    if not hasattr(subj, "plot"):
+        subj = env.get("hist")
     step = o["style"] == "step" or (o["style"] is None and isinstance(subj, HistData))
     env.whatif = "LPlot 0 true %s %s %s" % (fq.b(env.shares(subj)), fq.b(step), fq.q(o["xoffset"]))
     kw = dict(style=o["style"], xoffset=o["xoffset"], indicate_zero=o["zero"], scale_dz=o["scale_dz"], ax=env.axis(o["ax"]))
@@ -420,7 +428,10 @@ def op_plot(env, o):
 
 
 def op_plot_corr(env, o):
-    env.get(o["subj"]).plot_corr(redshift=o["redshift"], ax=env.axis(o["ax"]))
+    subj = env.get(o["subj"])
+    if not hasattr(subj, "plot_corr"):
+        subj = env.get("hist")
+    subj.plot_corr(redshift=o["redshift"], ax=env.axis(o["ax"]))
 
 
 def op_text(env, o):
@@ -632,10 +643,15 @@ def op_modify(env, o):
         m = cfg.modify(max_workers=2)
     elif how == "inner":
         m = cfg.binning.modify(closed=flip(env.spec["closed"]))
-    else:       # the modified configuration is USED: a histogram with the other closed side, then one with an unmodified copy
+    elif how == "use-auto" and env.spec["cfg"] != "binning":
+        # a measurement with a configuration DERIVED from the one under observation (same edges, other scales); its result is looked at later
+        import yaw
+        m = cfg.modify(rmax=500.0)
+        env.derived = yaw.autocorrelate(m, env.cat, env.cat, count_rr=False, max_workers=1)[0].sample()
+    else:       # the derived configuration is USED: a histogram with an unmodified copy (looked at later), one with the other closed side
         m = cfg.modify(closed=flip(env.spec["closed"]))
-        env.derived = HistData.from_catalog(env.cat, m, max_workers=1)
-        HistData.from_catalog(env.cat, cfg.modify(), max_workers=1)
+        HistData.from_catalog(env.cat, m, max_workers=1)
+        env.derived = HistData.from_catalog(env.cat, cfg.modify(), max_workers=1)
     return base.describe_safe(m), repr(m), m == cfg
 
 
@@ -732,9 +748,10 @@ def observe_look(ctx, spec, idx):
                     errors["meas"] = "%s: %s" % (type(e).__name__, e)
             reported = base.describe_safe(env.cfg)
             snap = env.snap()
+            results = {nm: list(base.describe_safe(obj)) for nm, obj in sorted(env.res.items())}
             return dict(trees=trees, hist=hist, meas=meas, errors=errors, reported=[reported[0], list(reported[1])],
                         bits_equal=bool(len(snap) == 4 and snap[1] == own_bytes and snap[0] == spec["closed"]),
-                        changes=[[s, c] for s, c in env.changes], raised=[list(r) for r in env.raised], whatif=whatif)
+                        changes=[[s, c] for s, c in env.changes], raised=[list(r) for r in env.raised], whatif=whatif, results=results)
     finally:
         impl.set_threads(1)
         env.cleanup()
@@ -857,4 +874,15 @@ def run_looks(ctx, specs, name="Looks_C10"):
     codes = ctx.shards(name, HEADER_LOOK, terms, shard=60)
     for (idx, spec, obs, info), c in zip(kept, codes):
         interpret_look(ctx, idx, spec, obs, info, c)
+    # the results that were looked at were measured with the created binning and must still report it (c10_transport_case);
+    # histories whose configuration changed are reported above
+    recs = []
+    for (idx, spec, obs, info), c in zip(kept, codes):
+        if c is None or c & 3:
+            continue
+        for nm, got in sorted(obs["results"].items()):
+            ctx.bump("reported:%s:after-readonly-calls" % nm)
+            recs.append(dict(obj="reported:" + nm, kind="after-readonly-calls", closed=spec["closed"], edges=list(spec["edges"]), got=list(got),
+                             spec=spec, case=("look", idx)))
+    base.eval_transports(ctx, recs, name=name + "_Reported")
     return codes
